@@ -273,14 +273,24 @@ fn random_history(rng: &mut Rng, base: u64, len: u64) -> Vec<String> {
             0..=2 => toks.push(format!("s:{}:{:x}:{:x}:{:x}:k", src, k, t, 0x100 + i)),
             3..=5 => toks.push(format!("d:{}:{:x}:{:x}:k", src, k, t)),
             6 => {
+                // half of the bulks carry ONE stamp for all their (different) ids, as put_many does
+                let shared = rng.chance(1, 2);
                 let items: Vec<String> = (0..1 + rng.below(3))
-                    .map(|j| format!("{:x}.{:x}.{:x}", 1 + rng.below(5), mk(tick, 8 + j, node), 0x200 + i))
+                    .map(|j| {
+                        if shared {
+                            format!("{:x}.{:x}.{:x}", 1 + j, mk(tick, 8, node), 0x200 + i)
+                        } else {
+                            format!("{:x}.{:x}.{:x}", 1 + rng.below(5), mk(tick, 8 + j, node), 0x200 + i)
+                        }
+                    })
                     .collect();
                 toks.push(format!("S:{}:k:{}", src, items.join(",")));
             },
             7 => {
-                let items: Vec<String> =
-                    (0..1 + rng.below(3)).map(|j| format!("{:x}.{:x}", 1 + rng.below(6), mk(tick, 12 + j, node))).collect();
+                let shared = rng.chance(1, 2);
+                let items: Vec<String> = (0..1 + rng.below(3))
+                    .map(|j| if shared { format!("{:x}.{:x}", 1 + j, mk(tick, 12, node)) } else { format!("{:x}.{:x}", 1 + rng.below(6), mk(tick, 12 + j, node)) })
+                    .collect();
                 toks.push(format!("D:{}:k:{}", src, items.join(",")));
             },
             8 => toks.push("P:k".into()),
@@ -356,6 +366,14 @@ fn main() {
                  format!("s:1:2:{:x}:42:k", t(2 * W_TICKS + 1, 0, 1)), "P:k".into(), "R".into(),
                  format!("s:0:1:{:x}:43:k", t(0, 5, 1)), "R".into()],
         ];
+        // bulks whose ids share one stamp (put_many / del_many), then restarts
+        let shapes2: Vec<Vec<String>> = vec![
+            vec![format!("S:0:k:1.{t0:x}.51,2.{t0:x}.52,3.{t0:x}.53,4.{t0:x}.54", t0 = t(40, 0, 1)), "R".into(),
+                 format!("D:0:k:2.{t1:x},3.{t1:x}", t1 = t(41, 0, 2)), "R".into()],
+        ];
+        for s in &shapes2 {
+            both(&mut w, &root, &mut n, &probes, s);
+        }
         for s in &shapes {
             both(&mut w, &root, &mut n, &probes, s);
         }
